@@ -22,6 +22,7 @@ from typing import List
 from jinja2 import Environment, FunctionLoader
 from jinja2.environment import Template
 from jinja2.exceptions import TemplateSyntaxError
+from jinja2.utils import Namespace
 from vfw.core import Cond, pick, pickb
 from vfw.support import NoTracing, drive, drive_agen
 
@@ -44,7 +45,15 @@ ASSUMPTIONS = [
     "templates are compiled natively at setup (runtime conditions) or natively per path (syntax conditions)",
     "template file names come from a FunctionLoader returning a distinct filename per template",
 ]
-SUSPECTED_DEFECTS: list = []
+SUSPECTED_DEFECTS = [
+    "compiler.visit_With emits the assignments with self.newline() (no node): an exception raised by the value of "
+    "'{% with a = f() %}' is attributed to the previous mapped template line, e.g. '{{ 1 }}\\n\\n\\n{% with a = f() %}{% endwith %}' "
+    "reports line 1 instead of 4 (skeleton 'ext' slot flagged @D)",
+    "compiler.visit_EvalContextModifier writes 'context.eval_ctx.autoescape = <expr>' without a line mapping: "
+    "'{{ 1 }}\\n\\n\\n{% autoescape f() %}{% endautoescape %}' reports line 1 instead of 4 (skeleton 'ext' slot flagged @D)",
+    "ext.InternationalizationExtension.parse returns the synthetic Assign('_trans', <call>) without a line number: "
+    "'{{ 1 }}\\n\\n\\n{% trans x=f() %}{{ x }}{% endtrans %}' reports line 1 instead of 4 (skeleton 'ext' slot flagged @D)",
+]
 
 
 class Boom(Exception):
@@ -407,7 +416,7 @@ SK["linestmt"] = {"main": """{{ f(@) }}
 SKENV["linestmt"] = dict(line_statement_prefix="#", line_comment_prefix="##")
 
 SK["ext"] = {"main": """{% do f(@) %}
-{% trans x=f(@) %}
+{% trans x=f(@D) %}
   hello {{ x }}
 
 {% endtrans %}
@@ -423,20 +432,30 @@ SK["ext"] = {"main": """{% do f(@) %}
   {{ f(@) }}
   {% continue %}
 {% endfor %}
-{% with a = f(@), b = 2 %}
+{% with a = f(@D), b = 2 %}
   {{ f(@) }}
 {% endwith %}
 {% autoescape true %}
   {{ f(@) }}
 {% endautoescape %}
 
-{% autoescape f(@) %}
+{% autoescape f(@D) %}
   {{ f(@) }}
 {% endautoescape %}
-{% set ns = namespace(v=f(@)) %}
-{% set ns.v = f(@) %}
+{% set ns0.v = f(@) %}
 {{ f(@) }}"""}
 SKENV["ext"] = dict(extensions=["jinja2.ext.do", "jinja2.ext.i18n", "jinja2.ext.loopcontrols"])
+
+# constructing Namespace under tracing trips CrossHair's constructor enforcement: native (mode B) conditions only
+SK["ns"] = {"main": """{{ f(@) }}
+{% set ns = namespace(v=f(@)) %}
+
+{% set ns.v = f(@) %}
+{% for i in f(@) %}
+  {% set ns.w = f(@) %}
+{% endfor %}
+{{ f(@) }}"""}
+NATIVE_ONLY = {"ns"}
 
 NLS = ["\n", "\r\n", "\r", "mixed"]
 _ROT = ["\r", "\r\n", "\n"]     # unambiguous rotation: '\r' is never directly followed by '\n'
@@ -452,7 +471,7 @@ MAL = [
     ("p", "{%- filter %}"), ("p", "{% block dup_ %}{% endblock %}{% block dup_ %}{% endblock %}"),
     ("p", "{{ 1|nosuchfilter_ }}"), ("p", "{%+ from 'x' import %}"), ("p", "{{ 1 1 }}"),
 ]
-QUICK_MAL = [0, 1, 2, 4, 8, 12, 13, 14, 15, 18, 19, 26]
+QUICK_MAL = [0, 1, 2, 7, 11, 12, 14, 18]
 
 
 def convert_nl(src, nl):
@@ -468,7 +487,7 @@ def convert_nl(src, nl):
     return "".join(out)
 
 
-def build(files, bad=None, mal=None):
+def build(files, bad=None, mal=None, flagged=None):
     """Number the slots; returns ({name: source}, {slot: (name, line)}).  With ``bad``/``mal`` slot ``bad`` is malformed."""
     n = 0
     out = {}
@@ -479,6 +498,10 @@ def build(files, bad=None, mal=None):
         prefix_at = None
         for p in parts[1:]:
             n += 1
+            if p.startswith("D"):       # slot flagged as a known deviation of the unchanged tree (see SUSPECTED_DEFECTS)
+                p = p[1:]
+                if flagged is not None:
+                    flagged.append(n)
             slots[n] = (name, 1 + s.count("\n"))
             if n == bad and mal[0] == "x":
                 s += mal[1] + p
@@ -507,7 +530,7 @@ def make_env(sk, srcs, nl, var):
         return None
 
     env = Environment(loader=FunctionLoader(load), **kw)
-    env.globals.update(f=_f, g=_f, tn=_tn, none_v=None)
+    env.globals.update(f=_f, g=_f, tn=_tn, none_v=None, ns0=Namespace())
     env.filters["fl"] = _fl
     env.tests["ts"] = _ts
     if "extensions" in kw:
@@ -519,6 +542,7 @@ P = {}
 BUILT = {}
 SLOTS = {}
 FILES = set()
+EXCL = []
 
 
 def setup(param):
@@ -527,11 +551,12 @@ def setup(param):
     BUILT.clear()
     SLOTS.clear()
     FILES.clear()
+    del EXCL[:]
     K[0] = 0
     sk = P.get("sk")
     if not sk:
         return
-    srcs, slots = build(SK[sk])
+    srcs, slots = build(SK[sk], flagged=EXCL)
     SLOTS.update(slots)
     FILES.update(fname(sk, n) for n in srcs)
     if P.get("kind") == "rt":
@@ -600,14 +625,7 @@ def _run(t, is_async, gen):
     return t.render()
 
 
-def raise_ok(k: int, nl: int, var: int, gen: bool) -> bool:
-    """
-    pre: 0 <= nl < len(NLS) and 0 <= var < len(VARS)
-    post: _
-    """
-    nl = pick(nl, len(NLS))
-    var = pick(var, len(VARS))
-    gen = pickb(gen)
+def _raise(k, nl, var, gen):
     t = BUILT[(nl, var)]
     K[0] = k
     try:
@@ -622,6 +640,31 @@ def raise_ok(k: int, nl: int, var: int, gen: bool) -> bool:
         K[0] = 0
     # every slot is reachable: no exception means k names no slot
     return not (1 <= k <= len(SLOTS))
+
+
+# EXCL: slots written '@D' in the skeleton = statements the unchanged tree is known to mis-report (SUSPECTED_DEFECTS)
+def raise_ok(k: int, var: int) -> bool:
+    """
+    pre: 0 <= var < len(VARS) and all(k != d for d in EXCL)
+    post: _
+    """
+    # mode A: k (any int) flows through the rendering template into the context function; the render, the
+    # raise, handle_exception and the traceback rewrite all run under tracing
+    var = pick(var, len(VARS))
+    return _raise(k, P.get("nl", 3), var, False)
+
+
+def raise_b_ok(k: int, nl: int, var: int, gen: bool) -> bool:
+    """
+    pre: 0 <= k <= len(SLOTS) + 1 and 0 <= nl < len(NLS) and 0 <= var < len(VARS) and all(k != d for d in EXCL)
+    post: _
+    """
+    k = pick(k, len(SLOTS) + 2)
+    nl = pick(nl, len(NLS))
+    var = pick(var, len(VARS))
+    gen = pickb(gen)
+    with NoTracing():
+        return _raise(k, nl, var, gen)
 
 
 # ---------------------------------------------------------------------------------------------- syntax errors
@@ -664,15 +707,24 @@ def conditions(tier, seed):
                 witnesses=[[[1, 3, 7], [5, 9, 20], 10], [[1, 3, 7], [5, 9, 20], 4], [[2, 2], [8, 8], 8], [[], [], 3]],
                 bounds="debug_info of <= %d (template_line, code_line) pairs of arbitrary ints sorted by code line; any int line" % (5 if thorough else 4))]
     for sk in SK:
-        n = len(build(SK[sk])[1])
-        out.append(Cond(f"raise[{sk}]", "raise_ok", mode="A", param=dict(sk=sk, kind="rt"), timeout=to,
-                        witnesses=[[1, 0, 0, False], [n, 3, 1, True], [max(1, n // 2), 2, 2, False], [n + 1, 1, 2, True]],
-                        bounds=f"skeleton '{sk}' ({len(SK[sk])} file(s), {n} numbered calls); raising call index k: any int; "
-                               "line breaks in {\\n, \\r\\n, \\r, mixed}; env in {default, trim_blocks+lstrip_blocks, async}; render or generate"))
+        fl = []
+        n = len(build(SK[sk], flagged=fl)[1])
+        good = [i for i in range(1, n + 1) if i not in fl]
+        desc = f"skeleton '{sk}' ({len(SK[sk])} file(s), {n} numbered calls" + (f", slots {fl} excluded: see SUSPECTED_DEFECTS" if fl else "") + ")"
+        if sk not in NATIVE_ONLY:
+            for nl in ([3, 1] if thorough else [3]):
+                out.append(Cond(f"raiseA[{sk},nl{nl}]", "raise_ok", mode="A", param=dict(sk=sk, kind="rt", nl=nl), timeout=to,
+                                witnesses=[[good[0], 0], [good[-1], 1], [good[len(good) // 2], 2], [n + 1, 2]],
+                                bounds=desc + f"; raising call index k: any int; line breaks: {NLS[nl]!r}; "
+                                       "env in {default, trim_blocks+lstrip_blocks, async}; render()/render_async()"))
+        out.append(Cond(f"raiseB[{sk}]", "raise_b_ok", mode="B", param=dict(sk=sk, kind="rt"), timeout=to,
+                        witnesses=[[good[0], 0, 0, False], [good[-1], 3, 1, True], [good[len(good) // 2], 2, 2, False], [n + 1, 1, 2, True]],
+                        bounds=desc + f"; k in 0..{n + 1}; line breaks in {{\\n, \\r\\n, \\r, mixed}}; "
+                               "env in {default, trim_blocks+lstrip_blocks, async}; render or generate (sync/async)"))
         out.append(Cond(f"debug_info[{sk}]", "debuginfo_ok", mode="B", param=dict(sk=sk, kind="rt"), timeout=to,
                         witnesses=[[0], [5], [11]], bounds=f"the 12 compiled variants of skeleton '{sk}'"))
         mals = list(range(len(MAL))) if thorough else QUICK_MAL
-        groups = [mals[i::2] for i in range(2)] if thorough else [mals]
+        groups = [mals[i::2] for i in range(2)]
         for gi, g in enumerate(groups):
             out.append(Cond(f"syntax[{sk},{gi}]", "syn_ok", mode="B", param=dict(sk=sk, kind="syn", mals=g), timeout=to,
                             witnesses=[[1, 0, 0, 0], [n, len(g) - 1, 3, 1], [max(1, n // 2), len(g) // 2, 2, 0]],
